@@ -190,6 +190,7 @@ fn finding(which: &str) -> Result<String, String> {
 // failing-input search: deterministic pseudo-random histories over small universes on the REAL collections, each step
 // checked against a reference model and against the executable form of the representation invariant.  Used only to turn a
 // failed / undecided obligation into a concrete failing input; it never decides a property.
+static FOCUS: std::sync::Mutex<Vec<String>> = std::sync::Mutex::new(Vec::new());
 static PAST_INV: std::sync::atomic::AtomicBool = std::sync::atomic::AtomicBool::new(false);
 static HIST: std::sync::Mutex<String> = std::sync::Mutex::new(String::new());
 fn note(h: &str) { if let Ok(mut g) = HIST.lock() { g.clear(); g.push_str(h); } }
@@ -293,30 +294,38 @@ fn explore_key(seed: u64, steps: usize, nkeys: i32) -> Result<(), String> {
             4 | 5 => {
                 let want = lv.iter().filter(|e| e.0 < k).last().map(|e| e.2).unwrap_or(-1);
                 h!(hist, "first_less(t={},k={}); ", time, k);
-                watch(time, i32::MIN); let a = t.first_less(time, -1, KK(k, PROBE_EXP)); if let Some(x) = unwatch() { return Err(format!("[C20] {}-> the tree handed the expired key ({},exp {}) to the ordering at time {}", hist, x.0, x.1, time)); }
-                watch(time, i32::MIN); let b = l.first_less(time, -1, KK(k, PROBE_EXP)); if let Some(x) = unwatch() { return Err(format!("[C20] {}-> the list handed the expired key ({},exp {}) to the ordering at time {}", hist, x.0, x.1, time)); }
-                if a != want { return Err(format!("[C01] {}-> tree {} expected {}", hist, a, want)); }
-                if b != want { return Err(format!("[C13] {}-> list {} expected {}", hist, b, want)); }
+                watch(time, i32::MIN); let a = t.first_less(time, -1, KK(k, PROBE_EXP)); let seen_a = unwatch();
+                watch(time, i32::MIN); let b = l.first_less(time, -1, KK(k, PROBE_EXP)); let seen_b = unwatch();
+                if a != want { return Err(format!("[C01{}] {}-> tree {} expected {}", if seen_a.is_some() { ",C20" } else { "" }, hist, a, want)); }
+                if let Some(x) = seen_a { return Err(format!("[C20] {}-> the tree handed the expired key ({},exp {}) to the caller's comparison at time {}", hist, x.0, x.1, time)); }
+                if b != want { return Err(format!("[C13{}] {}-> list {} expected {}", if seen_b.is_some() { ",C20" } else { "" }, hist, b, want)); }
+                if let Some(x) = seen_b { return Err(format!("[C20] {}-> the list handed the expired key ({},exp {}) to the caller's comparison at time {}", hist, x.0, x.1, time)); }
             }
             6 | 7 => {
                 let want = lv.iter().filter(|e| e.0 <= k).last().map(|e| e.2).unwrap_or(-1);
                 h!(hist, "first_less_or_equal(t={},k={}); ", time, k);
-                watch(time, i32::MIN); let a = t.first_less_or_equal(time, -1, KK(k, PROBE_EXP)); if let Some(x) = unwatch() { return Err(format!("[C20] {}-> the tree handed the expired key ({},exp {}) to the ordering at time {}", hist, x.0, x.1, time)); }
-                watch(time, i32::MIN); let b = l.first_less_or_equal(time, -1, KK(k, PROBE_EXP)); if let Some(x) = unwatch() { return Err(format!("[C20] {}-> the list handed the expired key ({},exp {}) to the ordering at time {}", hist, x.0, x.1, time)); }
-                if a != want { return Err(format!("[C01] {}-> tree {} expected {}", hist, a, want)); }
-                if b != want { return Err(format!("[C13] {}-> list {} expected {}", hist, b, want)); }
-                watch(time, i32::MIN); let a2 = t.first_less_or_equal_by(time, -1, |x: KK| { observe(&x); x.0.cmp(&k) }); if let Some(x) = unwatch() { return Err(format!("[C20] {}-> the tree handed the expired key ({},exp {}) to the comparator at time {}", hist, x.0, x.1, time)); }
-                watch(time, i32::MIN); let b2 = l.first_less_or_equal_by(time, -1, |x: KK| { observe(&x); x.0.cmp(&k) }); if let Some(x) = unwatch() { return Err(format!("[C20] {}-> the list handed the expired key ({},exp {}) to the comparator at time {}", hist, x.0, x.1, time)); }
-                if a2 != want { return Err(format!("[C01] {}-> tree first_less_or_equal_by {} expected {}", hist, a2, want)); }
-                if b2 != want { return Err(format!("[C13] {}-> list first_less_or_equal_by {} expected {}", hist, b2, want)); }
+                watch(time, i32::MIN); let a = t.first_less_or_equal(time, -1, KK(k, PROBE_EXP)); let seen_a = unwatch();
+                watch(time, i32::MIN); let b = l.first_less_or_equal(time, -1, KK(k, PROBE_EXP)); let seen_b = unwatch();
+                if a != want { return Err(format!("[C01{}] {}-> tree {} expected {}", if seen_a.is_some() { ",C20" } else { "" }, hist, a, want)); }
+                if let Some(x) = seen_a { return Err(format!("[C20] {}-> the tree handed the expired key ({},exp {}) to the caller's comparison at time {}", hist, x.0, x.1, time)); }
+                if b != want { return Err(format!("[C13{}] {}-> list {} expected {}", if seen_b.is_some() { ",C20" } else { "" }, hist, b, want)); }
+                if let Some(x) = seen_b { return Err(format!("[C20] {}-> the list handed the expired key ({},exp {}) to the caller's comparison at time {}", hist, x.0, x.1, time)); }
+                watch(time, i32::MIN); let a2 = t.first_less_or_equal_by(time, -1, |x: KK| { observe(&x); x.0.cmp(&k) }); let seen_a2 = unwatch();
+                watch(time, i32::MIN); let b2 = l.first_less_or_equal_by(time, -1, |x: KK| { observe(&x); x.0.cmp(&k) }); let seen_b2 = unwatch();
+                if a2 != want { return Err(format!("[C01{}] {}-> tree first_less_or_equal_by {} expected {}", if seen_a2.is_some() { ",C20" } else { "" }, hist, a2, want)); }
+                if let Some(x) = seen_a2 { return Err(format!("[C20] {}-> the tree handed the expired key ({},exp {}) to the caller's comparison at time {}", hist, x.0, x.1, time)); }
+                if b2 != want { return Err(format!("[C13{}] {}-> list first_less_or_equal_by {} expected {}", if seen_b2.is_some() { ",C20" } else { "" }, hist, b2, want)); }
+                if let Some(x) = seen_b2 { return Err(format!("[C20] {}-> the list handed the expired key ({},exp {}) to the caller's comparison at time {}", hist, x.0, x.1, time)); }
             }
             8 | 9 => {
                 let want = lv.iter().find(|e| e.0 == k).map(|e| e.2);
                 h!(hist, "get_value(t={},k={}); ", time, k);
-                watch(time, i32::MIN); let a = t.get_value(time, KK(k, PROBE_EXP)); if let Some(x) = unwatch() { return Err(format!("[C20] {}-> the tree handed the expired key ({},exp {}) to the ordering at time {}", hist, x.0, x.1, time)); }
-                watch(time, i32::MIN); let b = l.get_value(time, KK(k, PROBE_EXP)); if let Some(x) = unwatch() { return Err(format!("[C20] {}-> the list handed the expired key ({},exp {}) to the ordering at time {}", hist, x.0, x.1, time)); }
-                if a != want { return Err(format!("[C06] {}-> tree {:?} expected {:?}", hist, a, want)); }
-                if b != want { return Err(format!("[C13] {}-> list {:?} expected {:?}", hist, b, want)); }
+                watch(time, i32::MIN); let a = t.get_value(time, KK(k, PROBE_EXP)); let seen_a = unwatch();
+                watch(time, i32::MIN); let b = l.get_value(time, KK(k, PROBE_EXP)); let seen_b = unwatch();
+                if a != want { return Err(format!("[C06{}] {}-> tree {:?} expected {:?}", if seen_a.is_some() { ",C20" } else { "" }, hist, a, want)); }
+                if let Some(x) = seen_a { return Err(format!("[C20] {}-> the tree handed the expired key ({},exp {}) to the caller's comparison at time {}", hist, x.0, x.1, time)); }
+                if b != want { return Err(format!("[C13{}] {}-> list {:?} expected {:?}", if seen_b.is_some() { ",C20" } else { "" }, hist, b, want)); }
+                if let Some(x) = seen_b { return Err(format!("[C20] {}-> the list handed the expired key ({},exp {}) to the caller's comparison at time {}", hist, x.0, x.1, time)); }
             }
             10 => {
                 if rng.below(4) != 0 { continue; }
@@ -431,8 +440,16 @@ fn explore_set(seed: u64, steps: usize, nkeys: i32) -> Result<(), String> {
             0..=4 => {
                 if model.contains_key(&k) { continue; }
                 vseq += 1;
+                // C17: handles taken before an insertion keep designating the same entry
+                let handles: Vec<(i32, u32)> = model.keys().map(|kk| (*kk, t.first_index_less(kk))).collect();
                 h!(hist, "insert({},{}); ", k, vseq);
                 t.insert(SV { k, payload: vseq }); SetCollection::<i32, SV>::insert(&mut l, SV { k, payload: vseq }); model.insert(k, vseq);
+                for (kk, h) in handles {
+                    if h == EMPTY_REF || (h as usize) >= t.store.buffer.len() { continue; } // (a lookup that already failed is reported by C05 / C08)
+                    let v = t.value_by_index(h);
+                    if v.k != kk || v.payload != model[&kk] { return Err(format!("[C17] {}-> handle of key {} designates ({},{}) after the insertion", hist, kk, v.k, v.payload)); }
+                    if t.first_index_less(&kk) != h { return Err(format!("[C17] {}-> handle of key {} changed across an insertion", hist, kk)); }
+                }
             }
             5 | 6 => { h!(hist, "delete({}); ", k); t.delete(&k); SetCollection::<i32, SV>::delete(&mut l, &k); model.remove(&k); }
             7 | 8 => {
@@ -548,6 +565,13 @@ fn explore(which: &str, seeds: u64, steps: usize) -> Result<u64, String> {
             _ => Err("unknown collection".to_string()),
         };
         if let Err(e) = r {
+            // focus mode: a history that fails for a different property is recorded and skipped; the search goes on for one
+            // that fails for the properties asked for
+            let focus = FOCUS.lock().map(|g| g.clone()).unwrap_or_default();
+            if !focus.is_empty() {
+                let tags: Vec<&str> = e.trim_start_matches('[').split(']').next().unwrap_or("").split(',').collect();
+                if !tags.iter().any(|t| focus.iter().any(|f| f == t)) { continue; }
+            }
             if past && e.starts_with("[C02,C11") {
                 // only the invariant is broken in this history: keep looking for a history in which it becomes observable
                 if first_inv.is_none() { first_inv = Some(format!("seed {}: {}", seed, e)); }
@@ -883,7 +907,10 @@ fn main() {
         Some("explore") => {
             let seeds: u64 = args[3].parse().unwrap();
             let steps: usize = args[4].parse().unwrap();
-            if args.get(5).map(|x| x.as_str()) == Some("continue") { PAST_INV.store(true, std::sync::atomic::Ordering::Relaxed); }
+            for a in args.iter().skip(5) {
+                if a == "continue" { PAST_INV.store(true, std::sync::atomic::Ordering::Relaxed); }
+                if let Some(f) = a.strip_prefix("focus=") { if let Ok(mut g) = FOCUS.lock() { *g = f.split(',').map(|x| x.to_string()).collect(); } }
+            }
             // a panic of the real code (debug assertion, overflow, out-of-bounds) is a failing input too
             let which = args[2].clone();
             // a panic of the real code (debug assertion, overflow, out-of-bounds / unsafe-precondition check) is a failing input
